@@ -215,6 +215,20 @@ func (t *tfunc) assignedOuter(nodes ...ast.Node) []types.Object {
 		}
 	}
 	mark := func(e ast.Expr) {
+		// written receiver state counts as a variable declared outside everything
+		for x := e; ; {
+			if ix, ok := ast.Unparen(x).(*ast.IndexExpr); ok {
+				x = ix.X
+				continue
+			}
+			if path, ok := t.recvPath(x); ok && path != "" {
+				if op := t.okey[path]; op != nil && op.written {
+					set[op.obj] = true
+				}
+				return
+			}
+			break
+		}
 		id := rootIdent(e)
 		if id == nil || id.Name == "_" {
 			return
@@ -612,6 +626,9 @@ func (t *tfunc) ret(v *ast.ReturnStmt, c *ctx) block {
 			vals = append(vals, t.use(t.name(o)))
 		}
 	case len(v.Results) == 1 && len(t.results) > 1:
+		if len(t.state) > 0 {
+			t.bad(v, "return of a call's whole result in a function that writes receiver state")
+		}
 		return c.ret(t.expr(v.Results[0], nil)) // f() returning the whole tuple
 	default:
 		if len(v.Results) != len(t.results) {
@@ -620,6 +637,12 @@ func (t *tfunc) ret(v *ast.ReturnStmt, c *ctx) block {
 		for i, e := range v.Results {
 			vals = append(vals, t.expr(e, t.results[i]))
 		}
+	}
+	if len(t.state) > 0 {
+		if len(vals) > 1 {
+			vals = []string{tupleOf(vals)}
+		}
+		return c.ret(t.withState(vals))
 	}
 	return c.ret(tupleOf(vals))
 }
@@ -719,7 +742,11 @@ func (t *tfunc) assign(lhs ast.Expr, val string) block {
 		}
 		return t.bind(o, val)
 	case *ast.SelectorExpr:
-		if _, ok := t.recvPath(l); ok {
+		if path, ok := t.recvPath(l); ok {
+			if op := t.okey[path]; op != nil && op.written {
+				t.declare(op.name, op.typ)
+				return block{fmt.Sprintf("let %s : %s := %s", op.name, op.typ, val)}
+			}
 			t.bad(lhs, "write to receiver state")
 		}
 		// x.a.b = val  with x a local struct (or an owned pointer to one)
